@@ -9,6 +9,9 @@
      obs   = per event, taken at the sync marker that follows it:
              "ok"/"nil"; Config().Me.Nick (read BEFORE Me() is called);
              "ok"/"nil"; Me().Nick;
+             "ok"/"nil"; Config().Me.Nick read again AFTER Me();
+             one byte per CONNECTED event dispatched during the step: 'n' = a foreground handler
+               saw Config().Me == nil, 'o' = non-nil (empty field: no CONNECTED);
              dec #lines; the NICK lines the client wrote during the step
    kind "dnn":  input = ["dnn"; old]   obs = [client.DefaultNewNick(old)] *)
 From Verif Require Import EntryBase NickHandlers.
@@ -68,8 +71,12 @@ Definition decode_C17 (i : list bytes) : c17_case :=
 
 Definition enc_opt (o : option bytes) : list bytes :=
   match o with Some n => [tag_ok; n] | None => [tag_nil; []] end.
+(* the CONNECTED samples as ONE field: a byte per CONNECTED event, 'n' = Config().Me was nil, 'o' = not *)
+Definition enc_conn (l : list bool) : bytes := map (fun b : bool => if b then 110%N else 111%N) l.
+Definition dec_conn (s : bytes) : list bool := map (fun c => N.eqb c 110%N) s.
 Definition enc_obs (o : obs) : list bytes :=
-  enc_opt (o_cfg o) ++ enc_opt (o_me o) ++ dec_of_Z (Z.of_nat (length (o_nicks o))) :: o_nicks o.
+  enc_opt (o_cfg o) ++ enc_opt (o_me o) ++ enc_opt (o_cfg2 o) ++ [enc_conn (o_conn o)]
+  ++ dec_of_Z (Z.of_nat (length (o_nicks o))) :: o_nicks o.
 
 Definition model_C17 (i : list bytes) : list bytes :=
   if beq (get i 0) k_dnn then [default_new_nick (get i 1)]
@@ -84,17 +91,18 @@ Fixpoint decode_obs (k : nat) (o : list bytes) : option (list obs) :=
   | O => match o with [] => Some [] | _ => None end
   | S k' =>
       match o with
-      | ct :: cn :: mt :: mn :: cnt :: rest =>
-          match dec_opt ct cn, dec_opt mt mn, Z_of_dec cnt with
-          | Some c, Some m, Some z =>
+      | ct :: cn :: mt :: mn :: c2t :: c2n :: conn :: cnt :: rest =>
+          match dec_opt ct cn, dec_opt mt mn, dec_opt c2t c2n, Z_of_dec cnt with
+          | Some c, Some m, Some c2, Some z =>
               let n := Z.to_nat z in
               if (n <=? length rest)%nat then
                 match decode_obs k' (skipn n rest) with
-                | Some os => Some ({| o_cfg := c; o_me := m; o_nicks := firstn n rest |} :: os)
+                | Some os => Some ({| o_cfg := c; o_me := m; o_cfg2 := c2; o_conn := dec_conn conn;
+                                      o_nicks := firstn n rest |} :: os)
                 | None => None
                 end
               else None
-          | _, _, _ => None
+          | _, _, _, _ => None
           end
       | _ => None
       end
